@@ -57,14 +57,14 @@ pub fn parse_statement(
     if let Some(rest) = trimmed.strip_prefix("VAR ") {
         *line_index += 1;
         return Ok(ParsedStatement::Global(
-            parse_global_assignment(rest).map_err(|e| e.with_line(ln))?,
+            parse_global_assignment(rest, ln).map_err(|e| e.with_line(ln))?,
         ));
     }
 
     if let Some(rest) = trimmed.strip_prefix("CONST ") {
         *line_index += 1;
         return Ok(ParsedStatement::Const(
-            parse_global_assignment(rest).map_err(|e| e.with_line(ln))?,
+            parse_global_assignment(rest, ln).map_err(|e| e.with_line(ln))?,
         ));
     }
 
